@@ -1,7 +1,7 @@
 (* Props/C09.v - The case report states what was computed.
    Only statements; every proof is [exact <lemma>] from Proofs/. *)
 From Coq Require Import String Ascii QArith Qabs ZArith List Bool.
-From Verif Require Import Model.Fmt Model.Float Model.Report Gen.ReportLabels Proofs.FmtProofs Proofs.FloatProofs Proofs.ReportProofs Proofs.ReportGenProofs.
+From Verif Require Import Model.Fmt Model.Float Model.Report Gen.ReportLabels Proofs.FmtProofs Proofs.FmtSciProofs Proofs.FloatProofs Proofs.ReportProofs Proofs.ReportGenProofs.
 Import ListNotations.
 
 (* ---- figures: rounded to the displayed precision --------------------------------------------------------- *)
@@ -31,6 +31,32 @@ Theorem C09_printed_figure_is_quantity_rounded :
   forall q w p, exists z, parse_dec (fmt_f (Fin q) w p) = Some z /\ (Qabs (z - q) <= (1#2) / inject_Z (pow10 p))%Q.
 Proof. exact fmt_f_value_close. Qed.
 Print Assumptions C09_printed_figure_is_quantity_rounded.
+
+(* ---- scientific notation, format(q, 'w.pe') / 'w.pE' ------------------------------------------------------- *)
+(* the decimal exponent the formatter computes from digit counts is floor(log10 |q|), for every q <> 0 *)
+Theorem C09_decimal_exponent :
+  forall q, ~ (q == 0)%Q -> (Qpow10 (ilog10 q) <= Qabs q /\ Qabs q < Qpow10 (ilog10 q + 1))%Q.
+Proof. exact ilog10_spec. Qed.
+Print Assumptions C09_decimal_exponent.
+
+(* |q| rounded half-even to n significant digits is an n-digit integer m at exponent x (a carry to 10^n moves to the next
+   exponent), within half a unit of its last digit *)
+Theorem C09_significant_digits :
+  forall q n, ~ (q == 0)%Q -> (1 <= n)%nat -> forall m x, sig_round q n = (m, x) ->
+  (pow10 (n - 1) <= m < pow10 n)%Z /\
+  (Qabs (inject_Z m * Qpow10 (x - Z.of_nat n + 1) - Qabs q) <= (1#2) * Qpow10 (x - Z.of_nat n + 1))%Q.
+Proof. exact sig_round_spec. Qed.
+Print Assumptions C09_significant_digits.
+
+(* For every q <> 0, width and precision the TEXT of format(q, 'w.pe') (sign, d.ddd, 'e'/'E', exponent sign, at least two
+   exponent digits) reads back as a decimal z with p+1 significant digits, 10^x <= |z| < 10^(x+1), within half a unit of
+   its last digit of q. *)
+Theorem C09_sci_text_is_rounded_value :
+  forall upper q w p, ~ (q == 0)%Q ->
+  exists z x, parse_sci (fmt_e upper (Fin q) w p) = Some z /\
+    (Qabs (z - q) <= (1#2) * Qpow10 (x - Z.of_nat p))%Q /\ (Qpow10 x <= Qabs z /\ Qabs z < Qpow10 (x + 1))%Q.
+Proof. exact fmt_e_value. Qed.
+Print Assumptions C09_sci_text_is_rounded_value.
 
 (* ---- profile tables: one row per year, in order, reading the right index --------------------------------- *)
 
@@ -194,6 +220,13 @@ Print Assumptions C09_scalar_line_layout.
 Example C09_ex_tie : fmt_f (Fin (2675#1000)) 10 2 = "      2.68"%string
   /\ fmt_f (Fin (3011692045189939 # 1125899906842624)) 10 2 = "      2.67"%string
   /\ fmt_f (Fin (-(1#1000))) 6 2 = " -0.00"%string.
+Proof. vm_compute. repeat split; reflexivity. Qed.
+
+(* 0.00012345 to 3 significant digits; 99950 rounds up into the next decade (tie to even: 9.995e4 -> 1.00e+05) *)
+Example C09_ex_sci : fmt_e true (Fin (12345#100000000)) 10 2 = "  1.23E-04"%string
+  /\ fmt_e false (Fin (99950#1)) 0 2 = "1.00e+05"%string
+  /\ sig_round (99950#1) 3 = (100%Z, 5%Z)
+  /\ parse_sci "  1.23E-04" = Some ((1 * (inject_Z 123 / inject_Z (pow10 2)) * Qpow10 (-4))%Q).
 Proof. vm_compute. repeat split; reflexivity. Qed.
 
 Example C09_ex_comma : fmt_fc (Fin (1234567891#1000)) 0 2 = "1,234,567.89"%string /\ fmt_fc (Fin (-(999995#1000))) 0 2 = "-1,000.00"%string
